@@ -5,16 +5,25 @@ Parse: for every byte stream, every `idna.ToASCII`, both kinds of destination an
 source name, `Parse` delivers exactly the records of the well-formed lines, in source order
 and tagged with the source name, and reports every other line exactly once with its 1-based
 number — to `HandleInvalid` or joined in the returned error.  Independence of the read
-fragmentation is contract SCAN-1 (`parse_fragmentation` makes the dependence explicit).
+fragmentation is proved over the model of `bufio.Scanner` (`Go/Scanner.lean`, theorems in
+`Theorems/C08Scan.lean`): `parse_scan_eq`, `parse_fragmentation`, `parse_scan_read_error`
+quantify over arbitrary fragmentation scripts and buffers.
 
 DefaultStorage: after any sequence of `Add`s on a new storage, `ByAddr` / `ByName` are the
 first-seen-order de-duplications (by `strings.ToLower`, an arbitrary function here) of what
 was added; the two indexes agree; no duplicates; a record without names changes nothing.
+`RangeNames` / `RangeAddrs` visit every address that was added with a name / every lowered
+name exactly once, with the `ByAddr` / `ByName` answer, in whatever order the map is
+iterated, and stop at the first callback that returns false.  `Equal` decides equality of the
+`ByAddr` answers (`equal_iff_byAddr`); it does NOT decide equality of the `ByName` answers,
+only equality up to order (`equal_byName_perm`, `equal_not_byName`).
 -/
 import GolibsVerif.Lemmas.C08
+import GolibsVerif.Theorems.C08Scan
+import GolibsVerif.Lemmas.C08Range
 
 namespace GolibsVerif.C08
-open GolibsVerif GolibsVerif.Netip GolibsVerif.C07
+open GolibsVerif GolibsVerif.Netip GolibsVerif.C07 GolibsVerif.Bufio
 
 /-! ### Parse -/
 
@@ -46,17 +55,49 @@ theorem parse_read_error (toASCII : Bytes → Option Bytes) (isHandleSet : Bool)
   unfold parse
   simp [bind, Except.bind, parseLoop_eq, foldl_applyEvent, pure, Except.pure]
 
-/-- **Independence of the read fragmentation, under contract SCAN-1.**  `scanner` stands for
-`bufio.Scanner` + `bufio.ScanLines` fed with the chunks the reader returns; SCAN-1 says its
-tokens are `scanLines` of the concatenated stream.  Then two fragmentations of the same
-stream give the same outcome of `Parse`. -/
-theorem parse_fragmentation (toASCII : Bytes → Option Bytes) (isHandleSet : Bool) (srcName : Bytes)
-    (scanner : List Bytes → List Bytes)
-    (scan1 : ∀ chunks, scanner chunks = scanLines chunks.flatten)
-    (chunks₁ chunks₂ : List Bytes) (h : chunks₁.flatten = chunks₂.flatten) (st : PState) :
-    parseLoop toASCII isHandleSet srcName (scanner chunks₁) 1 st =
-      parseLoop toASCII isHandleSet srcName (scanner chunks₂) 1 st := by
-  rw [scan1, scan1, h]
+/-- **`Parse` over the real scanner loop is `Parse` over the lines of the stream.**
+`parseScan` runs `Parse` as the code does: `bufio.NewScanner(src)`,
+`s.Buffer(buf, bufio.MaxScanTokenSize)`, `for s.Scan()`, `s.Err()`, over the model of
+`bufio.Scanner` reading from a scripted reader.  For every stream whose lines are shorter than
+`bufio.MaxScanTokenSize`, every buffer `buf`, and every fragmentation script that delivers the
+whole stream and then `io.EOF` without more than 100 consecutive empty reads, the outcome is
+that of `parse` on the whole stream (to which `parse_exact` applies). -/
+theorem parse_scan_eq (toASCII : Bytes → Option Bytes) (isHandleSet : Bool) (srcName stream : Bytes)
+    (bufCap : Nat) (script : Script) (hshort : LinesShort stream maxScanTokenSize)
+    (hdel : delivered script = stream.length) (hend : ending script = .eof) (hstall : NoStall 0 script) :
+    parseScan toASCII isHandleSet srcName bufCap stream script =
+      parse toASCII isHandleSet srcName false stream := by
+  unfold parseScan parse
+  rw [scan_fragmentation_independent stream script bufCap maxScanTokenSize (by decide) hshort hdel hend hstall]
+  rfl
+
+/-- **Independence of the read fragmentation** (no contract left).  Two readers that deliver
+the same stream — by any two fragmentation scripts (1-byte reads, `(0, nil)` reads, data
+together with `io.EOF`, …) and into any two buffers — give the same outcome of `Parse`: the
+same calls on `dst` in the same order and the same returned error. -/
+theorem parse_fragmentation (toASCII : Bytes → Option Bytes) (isHandleSet : Bool) (srcName stream : Bytes)
+    (hshort : LinesShort stream maxScanTokenSize)
+    (bufCap₁ bufCap₂ : Nat) (script₁ script₂ : Script)
+    (hdel₁ : delivered script₁ = stream.length) (hend₁ : ending script₁ = .eof) (hstall₁ : NoStall 0 script₁)
+    (hdel₂ : delivered script₂ = stream.length) (hend₂ : ending script₂ = .eof) (hstall₂ : NoStall 0 script₂) :
+    parseScan toASCII isHandleSet srcName bufCap₁ stream script₁ =
+      parseScan toASCII isHandleSet srcName bufCap₂ stream script₂ := by
+  rw [parse_scan_eq toASCII isHandleSet srcName stream bufCap₁ script₁ hshort hdel₁ hend₁ hstall₁,
+    parse_scan_eq toASCII isHandleSet srcName stream bufCap₂ script₂ hshort hdel₂ hend₂ hstall₂]
+
+/-- **A failing reader, whatever its fragmentation.**  When the script ends with an error other
+than `io.EOF` after delivering a prefix of the stream, the outcome is that of `parse` with
+`readErr = true` on that prefix (to which `parse_read_error` applies): the calls for its
+lines, its unterminated tail included, and the scanning error. -/
+theorem parse_scan_read_error (toASCII : Bytes → Option Bytes) (isHandleSet : Bool) (srcName stream : Bytes)
+    (bufCap : Nat) (script : Script) (e : Err)
+    (hdel : delivered script ≤ stream.length) (hend : ending script = e) (hne : e ≠ .eof)
+    (hstall : NoStall 0 script) (hshort : LinesShort (stream.take (delivered script)) maxScanTokenSize) :
+    parseScan toASCII isHandleSet srcName bufCap stream script =
+      parse toASCII isHandleSet srcName true (stream.take (delivered script)) := by
+  unfold parseScan parse
+  rw [scan_read_error stream script bufCap maxScanTokenSize e (by decide) hdel hend hne hstall hshort]
+  rfl
 
 /-- **What the lines of a stream are** (the model of `bufio.ScanLines`, stated as the property
 reads it): LF-terminated lines, each without its terminator and without one CR before it; a
@@ -165,6 +206,283 @@ theorem nameless_noop (lower : Bytes → Bytes) (s : Storage) (r : Record) (h : 
     ∃ s', add lower s r = .ok s' ∧ observe lower s' = observe lower s := by
   refine ⟨s, ?_, rfl⟩
   simp [add, h, pure, Except.pure]
+
+/-! ### `RangeNames`, `RangeAddrs` -/
+
+/-- **What `RangeNames` visits** (callback always continuing), after any sequence of `Add`s on
+a new storage.  No address is visited twice; the pair `(a, names)` is visited iff some added
+record with `Addr = a` had at least one name, and then `names` is `ByAddr(a)`; such an
+address is visited exactly once; no visited slice is empty.  Nothing is said about the order
+(Go leaves it unspecified; `rangeNames_perm` gives the multiset in closed form). -/
+theorem rangeNames_spec (lower : Bytes → Bytes) (rs : List Record) (s : Storage)
+    (h : adds lower Storage.empty rs = .ok s) :
+    ((rangeNames s).map (·.1)).Nodup ∧
+    (∀ a ns, (a, ns) ∈ rangeNames s ↔ (∃ r ∈ rs, r.addr = a ∧ r.names ≠ []) ∧ ns = byAddr s a) ∧
+    (∀ a, (∃ r ∈ rs, r.addr = a ∧ r.names ≠ []) → (rangeNames s).count (a, byAddr s a) = 1) ∧
+    (∀ e ∈ rangeNames s, e.2 ≠ []) := by
+  obtain ⟨hn, _, hk, _⟩ := reach_keys h
+  have hnd : ((rangeNames s).map (·.1)).Nodup := by rw [rangeNames_keys]; exact hn
+  have hmem : ∀ a ns, (a, ns) ∈ rangeNames s ↔
+      (∃ r ∈ rs, r.addr = a ∧ r.names ≠ []) ∧ ns = byAddr s a := by
+    intro a ns; rw [mem_rangeNames hn, hk]
+  refine ⟨hnd, hmem, ?_, ?_⟩
+  · intro a ha
+    rw [(nodup_of_nodup_fst hnd).count, if_pos ((hmem a _).2 ⟨ha, rfl⟩)]
+  · rintro ⟨a, ns⟩ he
+    obtain ⟨ha, rfl⟩ := (mem_rangeNames hn a ns).1 he
+    exact (mem_keys_names_iff h a).1 ha
+
+/-- the same as a multiset, in closed form: the addresses of the added `(address, name)`
+pairs, each once, each with the first-seen-order de-duplication of its names -/
+theorem rangeNames_perm (lower : Bytes → Bytes) (rs : List Record) (s : Storage)
+    (h : adds lower Storage.empty rs = .ok s) :
+    (rangeNames s).Perm
+      ((firstSeenBy id ((pairs rs).map (·.1))).map fun a => (a, firstSeenBy lower (namesFor rs a))) := by
+  obtain ⟨hnd, hmem, _, _⟩ := rangeNames_spec lower rs s h
+  have hnd2 : (((firstSeenBy id ((pairs rs).map (·.1))).map
+      fun a => (a, firstSeenBy lower (namesFor rs a))).map (·.1)).Nodup := by
+    rw [List.map_map]
+    have := firstSeenAux_nodup id ((pairs rs).map (·.1)) []
+    simpa [firstSeenBy, Function.comp_def] using this
+  rw [List.perm_ext_iff_of_nodup (nodup_of_nodup_fst hnd) (nodup_of_nodup_fst hnd2)]
+  rintro ⟨a, ns⟩
+  rw [hmem, List.mem_map, byAddr_of_adds h, ← namesFor_ne_nil]
+  constructor
+  · rintro ⟨hne, rfl⟩
+    refine ⟨a, ?_, rfl⟩
+    rw [mem_firstSeenBy_id, List.mem_map]
+    obtain ⟨r, hr, ha, hnn⟩ := namesFor_ne_nil.1 hne
+    obtain ⟨n, hn⟩ := List.exists_mem_of_ne_nil _ hnn
+    exact ⟨(a, n), mem_pairs.2 ⟨r, hr, ha, hn⟩, rfl⟩
+  · rintro ⟨a', ha', heq⟩
+    simp only [Prod.mk.injEq] at heq
+    obtain ⟨rfl, rfl⟩ := heq
+    refine ⟨?_, rfl⟩
+    rw [mem_firstSeenBy_id, List.mem_map] at ha'
+    obtain ⟨p, hp, rfl⟩ := ha'
+    obtain ⟨r, hr, ha, hn⟩ := mem_pairs.1 hp
+    exact namesFor_ne_nil.2 ⟨r, hr, ha, List.ne_nil_of_mem hn⟩
+
+/-- **What `RangeAddrs` visits.**  No host is visited twice; the pair `(host, addrs)` is
+visited iff `host` is the lower-cased form of some name `n` of some added record, and then
+`addrs` is `ByName(n)`; the lower-cased form of every added name is visited exactly once; no
+visited slice is empty. -/
+theorem rangeAddrs_spec (lower : Bytes → Bytes) (rs : List Record) (s : Storage)
+    (h : adds lower Storage.empty rs = .ok s) :
+    ((rangeAddrs s).map (·.1)).Nodup ∧
+    (∀ k as, (k, as) ∈ rangeAddrs s ↔
+      ∃ r ∈ rs, ∃ n ∈ r.names, k = lower n ∧ as = byName lower s n) ∧
+    (∀ r ∈ rs, ∀ n ∈ r.names, (rangeAddrs s).count (lower n, byName lower s n) = 1) ∧
+    (∀ e ∈ rangeAddrs s, e.2 ≠ []) := by
+  obtain ⟨_, hn, _, hk⟩ := reach_keys h
+  have hnd : ((rangeAddrs s).map (·.1)).Nodup := by rw [rangeAddrs_keys]; exact hn
+  have hmem : ∀ k as, (k, as) ∈ rangeAddrs s ↔
+      ∃ r ∈ rs, ∃ n ∈ r.names, k = lower n ∧ as = byName lower s n := by
+    intro k as
+    rw [mem_rangeAddrs hn, hk]
+    constructor
+    · rintro ⟨⟨r, hr, n, hnm, rfl⟩, rfl⟩
+      exact ⟨r, hr, n, hnm, rfl, (byName_eq lower s n).symm⟩
+    · rintro ⟨r, hr, n, hnm, rfl, rfl⟩
+      exact ⟨⟨r, hr, n, hnm, rfl⟩, byName_eq lower s n⟩
+  refine ⟨hnd, hmem, ?_, ?_⟩
+  · intro r hr n hnm
+    rw [(nodup_of_nodup_fst hnd).count, if_pos ((hmem _ _).2 ⟨r, hr, n, hnm, rfl, rfl⟩)]
+  · rintro ⟨k, as⟩ he
+    obtain ⟨r, hr, n, hnm, rfl, rfl⟩ := (hmem k as).1 he
+    simp only [byName_eq, addrsAt_of_adds h, ne_eq, firstSeenBy_eq_nil, List.map_eq_nil_iff,
+      List.filter_eq_nil_iff]
+    intro hall
+    have := hall (r.addr, n) (mem_pairs.2 ⟨r, hr, rfl, hnm⟩)
+    simp at this
+
+/-- **A callback returning false stops `RangeNames`.**  `ord` is the order in which the Go
+runtime happens to iterate `s.names` (any permutation of the map's entries), `f` the callback
+with whatever state `σ` it closes over, `rangeLoop` the loop
+`for addr, names := range s.names { if !f(addr, names.vals) { return } }`.  The pairs the
+callback is called with are a prefix of `ord`; every call but the last answered true; if the
+loop did not reach the end of the map the last call answered false (so nothing is called
+after a false); if no call answered false the whole map was visited.  And whatever prefix is
+visited, no address occurs in it twice and every visited pair is `(a, ByAddr(a))`. -/
+theorem range_early_stop {σ : Type} (lower : Bytes → Bytes) (rs : List Record) (s : Storage)
+    (h : adds lower Storage.empty rs = .ok s)
+    (f : σ → Addr × List Bytes → Bool × σ) (st : σ)
+    (ord : List (Addr × List Bytes)) (hord : ord.Perm (rangeNames s)) :
+    let log := (rangeLoop f st ord).1
+    log.map (·.1) <+: ord ∧
+    (∀ e ∈ log.dropLast, e.2 = true) ∧
+    (log.map (·.1) ≠ ord → ∃ e, log.getLast? = some e ∧ e.2 = false) ∧
+    ((∀ e ∈ log, e.2 = true) → log.map (·.1) = ord) ∧
+    ((log.map (·.1)).map (·.1)).Nodup ∧
+    (∀ e ∈ log, e.1.2 = byAddr s e.1.1 ∧ ∃ r ∈ rs, r.addr = e.1.1 ∧ r.names ≠ []) := by
+  intro log
+  obtain ⟨p1, p2, p3, p4⟩ := rangeLoop_spec f ord st
+  obtain ⟨hnd, hmem, _, _⟩ := rangeNames_spec lower rs s h
+  refine ⟨p1, p2, p3, p4, ?_, ?_⟩
+  · have : (ord.map (·.1)).Nodup := ((hord.map (·.1)).nodup_iff).2 hnd
+    exact (p1.sublist.map (·.1)).nodup this
+  · intro e he
+    have : e.1 ∈ ord := p1.subset (List.mem_map.2 ⟨e, he, rfl⟩)
+    have := (hmem e.1.1 e.1.2).1 (hord.mem_iff.1 this)
+    exact ⟨this.2, this.1⟩
+
+/-- the same for `RangeAddrs` -/
+theorem rangeAddrs_early_stop {σ : Type} (lower : Bytes → Bytes) (rs : List Record) (s : Storage)
+    (h : adds lower Storage.empty rs = .ok s)
+    (f : σ → Bytes × List Addr → Bool × σ) (st : σ)
+    (ord : List (Bytes × List Addr)) (hord : ord.Perm (rangeAddrs s)) :
+    let log := (rangeLoop f st ord).1
+    log.map (·.1) <+: ord ∧
+    (∀ e ∈ log.dropLast, e.2 = true) ∧
+    (log.map (·.1) ≠ ord → ∃ e, log.getLast? = some e ∧ e.2 = false) ∧
+    ((∀ e ∈ log, e.2 = true) → log.map (·.1) = ord) ∧
+    ((log.map (·.1)).map (·.1)).Nodup ∧
+    (∀ e ∈ log, ∃ r ∈ rs, ∃ n ∈ r.names, e.1.1 = lower n ∧ e.1.2 = byName lower s n) := by
+  intro log
+  obtain ⟨p1, p2, p3, p4⟩ := rangeLoop_spec f ord st
+  obtain ⟨hnd, hmem, _, _⟩ := rangeAddrs_spec lower rs s h
+  refine ⟨p1, p2, p3, p4, ?_, ?_⟩
+  · have : (ord.map (·.1)).Nodup := ((hord.map (·.1)).nodup_iff).2 hnd
+    exact (p1.sublist.map (·.1)).nodup this
+  · intro e he
+    have : e.1 ∈ ord := p1.subset (List.mem_map.2 ⟨e, he, rfl⟩)
+    exact (hmem e.1.1 e.1.2).1 (hord.mem_iff.1 this)
+
+/-- a callback that never returns false is called on every entry (this is the `rangeNames` /
+`rangeAddrs` of the model, for any iteration order) -/
+theorem range_no_stop {α σ : Type} (g : σ → α → σ) (st : σ) (ord : List α) :
+    (rangeLoop (fun st x => (true, g st x)) st ord).1.map (·.1) = ord := rangeLoop_all g ord st
+
+/-! ### `Equal` -/
+
+/-- nil receivers and arguments: nil equals nil and nothing else — in particular an empty
+storage and a nil one are not equal, either way round (as documented) -/
+theorem equal_nil :
+    equal none none = true ∧
+    (∀ s, equal none (some s) = false ∧ equal (some s) none = false) ∧
+    equal (some Storage.empty) none = false ∧ equal none (some Storage.empty) = false :=
+  ⟨rfl, fun _ => ⟨rfl, rfl⟩, rfl, rfl⟩
+
+/-- **What `Equal` compares**, for any two non-nil storages (reachable or not): `len(names)`,
+`len(addrs)`, and for every entry of the receiver's `names` map the presence of the key in
+the other `names` map with an equal names slice.  The `addrs` map is consulted for its length
+only. -/
+theorem equal_decides (s o : Storage) :
+    equal (some s) (some o) = true ↔
+      s.names.length = o.names.length ∧ s.addrs.length = o.addrs.length ∧
+      ∀ e ∈ s.names, ∃ on, o.names.get e.1 = some on ∧ e.2.vals = on.vals :=
+  equal_some_iff s o
+
+/-- **What `Equal` decides** for two storages each reached by `Add`s from a new one (with the
+same `strings.ToLower`): exactly "the `ByAddr` answers are the same for every address".
+The two length comparisons are implied by it (see `equal_iff`). -/
+theorem equal_iff_byAddr (lower : Bytes → Bytes) (rs₁ rs₂ : List Record) (s t : Storage)
+    (hs : adds lower Storage.empty rs₁ = .ok s) (ht : adds lower Storage.empty rs₂ = .ok t) :
+    equal (some s) (some t) = true ↔ ∀ a, byAddr s a = byAddr t a := by
+  obtain ⟨sn, sa, _, _⟩ := reach_keys hs
+  obtain ⟨tn, ta, _, _⟩ := reach_keys ht
+  constructor
+  · intro h; exact (equal_byAddr sn h).2
+  · intro hb
+    have hkn : ∀ a, a ∈ keys s.names ↔ a ∈ keys t.names := by
+      intro a; rw [mem_keys_names_iff hs, mem_keys_names_iff ht, hb]
+    have hka : ∀ k, k ∈ keys s.addrs ↔ k ∈ keys t.addrs := by
+      intro k; rw [mem_keys_addrs_iff hs, mem_keys_addrs_iff ht]; simp only [hb]
+    rw [equal_some_iff]
+    refine ⟨?_, ?_, ?_⟩
+    · rw [← keys_length, ← keys_length]; exact length_eq_of_nodup_same sn tn hkn
+    · rw [← keys_length, ← keys_length]; exact length_eq_of_nodup_same sa ta hka
+    · rintro ⟨a, os⟩ he
+      have hg := get_of_mem sn he
+      obtain ⟨on, hg'⟩ := get_of_mem_keys ((hkn a).1 (mem_keys_of_get hg))
+      refine ⟨on, hg', ?_⟩
+      have := hb a
+      simpa [byAddr, hg, hg'] using this
+
+/-- the three-part reading: `Equal` holds iff the `ByAddr` answers agree, the same addresses
+were added with names, and the numbers of distinct lowered names agree — the last two parts
+being consequences of the first for storages built by `Add`s. -/
+theorem equal_iff (lower : Bytes → Bytes) (rs₁ rs₂ : List Record) (s t : Storage)
+    (hs : adds lower Storage.empty rs₁ = .ok s) (ht : adds lower Storage.empty rs₂ = .ok t) :
+    (equal (some s) (some t) = true ↔
+      (∀ a, byAddr s a = byAddr t a) ∧
+      (∀ a, (∃ r ∈ rs₁, r.addr = a ∧ r.names ≠ []) ↔ (∃ r ∈ rs₂, r.addr = a ∧ r.names ≠ [])) ∧
+      (rangeAddrs s).length = (rangeAddrs t).length) ∧
+    ((∀ a, byAddr s a = byAddr t a) →
+      (∀ a, (∃ r ∈ rs₁, r.addr = a ∧ r.names ≠ []) ↔ (∃ r ∈ rs₂, r.addr = a ∧ r.names ≠ [])) ∧
+      (rangeAddrs s).length = (rangeAddrs t).length) := by
+  have himp : (∀ a, byAddr s a = byAddr t a) →
+      (∀ a, (∃ r ∈ rs₁, r.addr = a ∧ r.names ≠ []) ↔ (∃ r ∈ rs₂, r.addr = a ∧ r.names ≠ [])) ∧
+      (rangeAddrs s).length = (rangeAddrs t).length := by
+    intro hb
+    obtain ⟨_, sa, sk, _⟩ := reach_keys hs
+    obtain ⟨_, ta, tk, _⟩ := reach_keys ht
+    constructor
+    · intro a
+      rw [← sk, ← tk, mem_keys_names_iff hs, mem_keys_names_iff ht, hb]
+    · have hka : ∀ k, k ∈ keys s.addrs ↔ k ∈ keys t.addrs := by
+        intro k; rw [mem_keys_addrs_iff hs, mem_keys_addrs_iff ht]; simp only [hb]
+      have := length_eq_of_nodup_same sa ta hka
+      simpa [rangeAddrs, keys] using this
+  refine ⟨?_, himp⟩
+  rw [equal_iff_byAddr lower rs₁ rs₂ s t hs ht]
+  exact ⟨fun hb => ⟨hb, himp hb⟩, fun h => h.1⟩
+
+/-- on storages built by `Add`s, `Equal` is reflexive, symmetric and transitive -/
+theorem equal_equiv (lower : Bytes → Bytes) (rs₁ rs₂ rs₃ : List Record) (s t u : Storage)
+    (hs : adds lower Storage.empty rs₁ = .ok s) (ht : adds lower Storage.empty rs₂ = .ok t)
+    (hu : adds lower Storage.empty rs₃ = .ok u) :
+    equal (some s) (some s) = true ∧
+    (equal (some s) (some t) = true → equal (some t) (some s) = true) ∧
+    (equal (some s) (some t) = true → equal (some t) (some u) = true →
+      equal (some s) (some u) = true) := by
+  rw [equal_iff_byAddr lower _ _ _ _ hs hs, equal_iff_byAddr lower _ _ _ _ hs ht,
+    equal_iff_byAddr lower _ _ _ _ ht hs, equal_iff_byAddr lower _ _ _ _ ht hu,
+    equal_iff_byAddr lower _ _ _ _ hs hu]
+  exact ⟨fun _ => rfl, fun h a => (h a).symm, fun h1 h2 a => (h1 a).trans (h2 a)⟩
+
+/-- **`Equal` and `ByName`.**  Two `Equal` storages built by `Add`s give, for every host, the
+same addresses — as a set: `ByName` answers are permutations of each other, and `RangeAddrs`
+visits the same hosts. -/
+theorem equal_byName_perm (lower : Bytes → Bytes) (rs₁ rs₂ : List Record) (s t : Storage)
+    (hs : adds lower Storage.empty rs₁ = .ok s) (ht : adds lower Storage.empty rs₂ = .ok t)
+    (h : equal (some s) (some t) = true) :
+    (∀ n, (byName lower s n).Perm (byName lower t n)) ∧
+    (∀ k, k ∈ (rangeAddrs s).map (·.1) ↔ k ∈ (rangeAddrs t).map (·.1)) := by
+  have hb := (equal_iff_byAddr lower rs₁ rs₂ s t hs ht).1 h
+  constructor
+  · intro n
+    rw [List.perm_ext_iff_of_nodup ((no_dups lower rs₁ s hs).2 n) ((no_dups lower rs₂ t ht).2 n)]
+    intro a
+    rw [indexes_agree lower rs₁ s hs, indexes_agree lower rs₂ t ht, hb]
+  · intro k
+    rw [rangeAddrs_keys, rangeAddrs_keys, mem_keys_addrs_iff hs, mem_keys_addrs_iff ht]
+    simp only [hb]
+
+/-- two `Add` histories of the same two records in opposite orders -/
+def recX1 : Record := { addr := .v4 [1, 1, 1, 1], source := [], names := [[120]] }
+def recX2 : Record := { addr := .v4 [2, 2, 2, 2], source := [], names := [[120]] }
+def stX12 : Storage :=
+  { names := [(.v4 [1, 1, 1, 1], ⟨[[120]], [[120]]⟩), (.v4 [2, 2, 2, 2], ⟨[[120]], [[120]]⟩)],
+    addrs := [([120], ⟨[.v4 [1, 1, 1, 1], .v4 [2, 2, 2, 2]], [.v4 [1, 1, 1, 1], .v4 [2, 2, 2, 2]]⟩)] }
+def stX21 : Storage :=
+  { names := [(.v4 [2, 2, 2, 2], ⟨[[120]], [[120]]⟩), (.v4 [1, 1, 1, 1], ⟨[[120]], [[120]]⟩)],
+    addrs := [([120], ⟨[.v4 [2, 2, 2, 2], .v4 [1, 1, 1, 1]], [.v4 [2, 2, 2, 2], .v4 [1, 1, 1, 1]]⟩)] }
+
+/-- **`Equal` does not imply equal `ByName` answers** (nor equal `RangeAddrs` pairs).
+`1.1.1.1 x` then `2.2.2.2 x`, against the same two records in the other order: the `names`
+indexes and both counts agree, so `Equal` is true in both directions, but `ByName("x")` is
+`[1.1.1.1, 2.2.2.2]` for the one and `[2.2.2.2, 1.1.1.1]` for the other.  (The `addrs` index
+is determined by the `names` index and the counts only up to the order inside each slice.) -/
+theorem equal_not_byName :
+    adds Str.asciiLower Storage.empty [recX1, recX2] = .ok stX12 ∧
+    adds Str.asciiLower Storage.empty [recX2, recX1] = .ok stX21 ∧
+    equal (some stX12) (some stX21) = true ∧ equal (some stX21) (some stX12) = true ∧
+    byName Str.asciiLower stX12 [120] = [.v4 [1, 1, 1, 1], .v4 [2, 2, 2, 2]] ∧
+    byName Str.asciiLower stX21 [120] = [.v4 [2, 2, 2, 2], .v4 [1, 1, 1, 1]] ∧
+    byName Str.asciiLower stX12 [120] ≠ byName Str.asciiLower stX21 [120] ∧
+    (∀ e ∈ rangeAddrs stX12, e ∉ rangeAddrs stX21) := by
+  refine ⟨rfl, rfl, by decide, by decide, by decide, by decide, by decide, by decide⟩
 
 /-! ### Non-vacuity, and the defect of the unchanged tree -/
 
